@@ -3,6 +3,7 @@
 import random
 import unittest
 
+import eliot
 from eliot import MemoryLogger
 from eliot.parse import Parser, WrittenAction
 from eliot.testing import LoggedAction, LoggedMessage, assertHasAction, assertHasMessage, swap_logger
@@ -154,7 +155,7 @@ def one(seed, i, res):
         if len(set(d for _, d, _ in want)) >= 2 or any(T in anc for _, _, anc in want):
             multi_depth = True
         try:
-            got = LoggedAction.of_type(messages, T)
+            got = LoggedAction.of_type(messages, T if rng.random() < 0.5 else eliot.ActionType(T, [], [], ""))
         except BaseException as e:
             problems.append("LoggedAction.of_type(%r) raised %r" % (T, e))
             continue
@@ -215,7 +216,7 @@ def one(seed, i, res):
                 variants.append(("start-fields-and-outcome-of-a-later-entry", later["status"] == "succeeded", {"nid": later["nid"]}, {}, False))
             for label, succ, s_, e_, expect_ok in variants:
                 try:
-                    r = assertHasAction(tc, logger, T, succ, s_, e_)
+                    r = assertHasAction(tc, logger, T if rng.random() < 0.5 else eliot.ActionType(T, [], [], ""), succ, s_, e_)
                     passed = True
                 except AssertionError:
                     passed = False
@@ -238,7 +239,7 @@ def one(seed, i, res):
     mtypes = sorted(set(n["type"] for n, _, _ in nodes if n["kind"] == "message")) + ["nope:m"]
     for T in mtypes:
         want = [n for n, _, _ in nodes if n["kind"] == "message" and n["type"] == T]
-        got = LoggedMessage.of_type(messages, T)
+        got = LoggedMessage.of_type(messages, T if rng.random() < 0.5 else eliot.MessageType(T, [], ""))
         if [m.message.get("nid") for m in got] != [n["nid"] for n in want]:
             problems.append("LoggedMessage.of_type(%r) returned nids %s, executed %s" % (T, [m.message.get("nid") for m in got][:8], [n["nid"] for n in want][:8]))
         if want:
@@ -252,7 +253,7 @@ def one(seed, i, res):
                 mvariants.append(("all-fields-of-a-later-entry", dict(want[1]["fields"]), json_equal(want[1]["fields"], first["fields"])))
             for label, f_, expect_ok in mvariants:
                 try:
-                    r = assertHasMessage(tc, logger, T, f_)
+                    r = assertHasMessage(tc, logger, T if rng.random() < 0.5 else eliot.MessageType(T, [], ""), f_)
                     passed = True
                 except AssertionError:
                     passed = False
